@@ -233,10 +233,27 @@ def Run(tier):
                  if x['k'] in ('var', 'num', 'pred', 'field')) >= 2
              for ti, _ in slots):
         n_uni_followed += 1
+  # every ASCII layout character (CRLF line ends as a whole-file variant, a
+  # stray \r / \f / \v / tab at every boundary) and empty / comment-only
+  # statements at both ends of the file and next to every ';'
+  layout_kinds = collections.Counter()
+  for i, t in enumerate(tcs):
+    free = [b for b in range(len(t['toks']) + 1) if not t['glue'][b]]
+    k = ['cr', 'ff', 'vt', 'tab'][i % 4]
+    sb = sg.StatementBoundaries(t)
+    for name, lay in (
+        ('crlf', {'sites': [{'b': b, 'k': 'crlf', 'pos': 'L'} for b in free]}),
+        (k, {'sites': [{'b': b, 'k': k, 'pos': 'L'} for b in free]}),
+        ('empty', {'empties': [{'b': b, 'c': 0} for b in sb]}),
+        ('empty_comment', {'empties': [{'b': b, 'c': 1 + (i + b) % 2}
+                                       for b in sb]})):
+      jobs.append(('layout', t['id'], sg.Render(t, lay), {'layout': name}))
+      layout_kinds[name] += 1
   seen = set()
   for p in places:
     lay = {'sites': p['sites'], 'wraps': p['wraps'],
-           'nests': p.get('nests', []), 'semi': p['semi']}
+           'nests': p.get('nests', []), 'empties': p.get('empties', []),
+           'semi': p['semi']}
     key = (p['id'], json.dumps(lay, sort_keys=True))
     if key in seen:
       continue
@@ -360,7 +377,11 @@ def Run(tier):
       'known_findings_not_reproduced': cls.NotReproduced(),
       'stats': stats,
       'unicode_literals_followed_by_tokens': n_uni_followed,
+      'per_layout_kind': dict(layout_kinds),
   }
+  for k in ('crlf', 'cr', 'ff', 'vt', 'tab', 'empty', 'empty_comment'):
+    if not layout_kinds.get(k):
+      missing.append('layout kind ' + k)
   if n_uni_followed == 0:
     missing.append('unicode literal followed by other tokens')
   if missing or missing_ops or accepted_canon == 0 or rejected_corrupt == 0:
